@@ -43,6 +43,8 @@ CHECKS = {
          "Futures dropped never-polled, after k polls, or a drawn number of decisions after Pending while a peer is handing off; ledger (delivered once or dropped once), lifetime monitor (no access to the dropped future), order of remaining waiters.", "4 C15"),
  "C16": ("exploration", "deterministic simulation: harness executor with spurious polls and waker replacement",
          "Spurious polls with the same or a fresh waker at any position, re-poll after completion (must panic), streams polled across many waits and after the end; stale-waker hangs, duplicated or invented values, order and end-of-stream stability are reported.", "4 C16"),
+ "C17": ("exploration", "deterministic simulation: lock harness with overlap marks, race monitor and try_lock step bound",
+         "2-4 tasks contend on the internal lock through lock/try_lock/unlock with a non-atomic read-modify-write inside; harness-level overlap marks, happens-before monitor on the cell and on consecutive critical sections, lost-update check, try_lock returns within 8 own decisions, every lock() returns (hang oracle); parallelism 1 and 4, holder stalled/frozen.", "4 C17"),
  "C18": ("exploration", "deterministic simulation (single task): lock-step comparison with a reference model",
          "Systematic sweep of all call sequences up to length 3 (quick) / 4 (thorough) over a 26-call core alphabet x 4 capacities plus seeded random sequences of length <= 40 over the full alphabet; every return value compared with the reference channel; only the documented panics allowed.", "4 C18"),
  "C19": ("exploration", "deterministic simulation: drain-specific real-time oracle",
